@@ -43,9 +43,10 @@ impl ProgressTracker for Probe {
     }
 }
 
-fn style_for(key: &str, ts: &[String], sh: &Shared) -> ProgressStyle {
+/// `lead`: the judged line is the second one of the template, below a line that holds a wide element
+fn style_for(key: &str, ts: &[String], sh: &Shared, lead: bool) -> ProgressStyle {
     let refs: Vec<&str> = ts.iter().map(|s| s.as_str()).collect();
-    ProgressStyle::with_template(&format!("[{{{key}}}]{{probe}}")).unwrap()
+    ProgressStyle::with_template(&if lead { format!("{{wide_msg}}\n[{{{key}}}]{{probe}}") } else { format!("[{{{key}}}]{{probe}}") }).unwrap()
         .tick_strings(&refs)
         .with_key("ctr", Counter(sh.clone()))
         .with_key("probe", Probe(sh.clone()))
@@ -89,6 +90,8 @@ pub fn run_history(hist: &Value, out: &mut dyn Write) {
     let spy = Spy::new(200, 100);
     let mut pb: Option<ProgressBar> = None;
     let mut ts: Vec<String> = vec!["x".into(), "y".into()];
+    // decided by the content of the history (not by its number, which a replay file changes)
+    let lead_hist = hist["ops"].to_string().bytes().fold(0u32, |a, b| a.wrapping_mul(31).wrapping_add(b as u32)) % 2 == 1;
     for (i, op) in hist["ops"].as_array().cloned().unwrap_or_default().iter().enumerate() {
         let mut rec = op.as_object().cloned().unwrap_or_default();
         let name = op["op"].as_str().unwrap_or("");
@@ -104,14 +107,14 @@ pub fn run_history(hist: &Value, out: &mut dyn Write) {
                     let tgt = if op["hid0"].as_bool().unwrap_or(false) { ProgressDrawTarget::hidden() } else { ProgressDrawTarget::term_like(Box::new(spy.clone())) };
                     let b = ProgressBar::with_draw_target(len, tgt)
                         .with_finish(ProgressFinish::Abandon)
-                        .with_style(style_for("ctr", &ts, &sh))
+                        .with_style(style_for("ctr", &ts, &sh, false))
                         .with_message(tok::cells_to_string(&op["m0"])).with_prefix(tok::cells_to_string(&op["p0"]))
                         .with_position(u64_of(&op["pos0"]));
                     pb = Some(b);
                 }
                 "adv" => clock::advance(u64_of(&op["ns"])),
                 "tickstr" => {
-                    let st = style_for("ctr", &ts, &sh);
+                    let st = style_for("ctr", &ts, &sh, false);
                     got = json!({"tick": c(st.get_tick_str(u64_of(&op["idx"])).to_string()), "fin": c(st.get_final_tick_str().to_string())});
                 }
                 _ => {
@@ -136,9 +139,11 @@ pub fn run_history(hist: &Value, out: &mut dyn Write) {
                         "show" => p.set_draw_target(ProgressDrawTarget::term_like(Box::new(spy.clone()))),
                         "render" => {
                             let _ = painted_strs(&spy, 0);
-                            p.set_style(style_for(op["key"].as_str().unwrap_or("pos"), &ts, &sh));
+                            // every other history renders its keys on the second line of a template whose first line is `{wide_msg}`
+                            let lead = lead_hist && !p.message().contains('\n');
+                            p.set_style(style_for(op["key"].as_str().unwrap_or("pos"), &ts, &sh, lead));
                             p.force_draw();
-                            let strs = painted_strs(&spy, 1);
+                            let strs = if lead { let mut v = painted_strs(&spy, 2); if v.len() >= 2 { v.remove(0); } v } else { painted_strs(&spy, 1) };
                             let g = sh.lock().unwrap().clone();
                             f = facts(p, &g);
                             return (strs, f, got);
